@@ -273,7 +273,7 @@ var keyPool = []string{
 }
 
 // plainKeyPool holds keys usable as tree-form path segments.
-var plainKeyPool = []string{"a", "b", "c", "d", "k1", "key", "é", "日本", "0", "12", "x y"}
+var plainKeyPool = []string{"a", "b", "c", "d", "k1", "key", "é", "日本", "0", "12", "x y", "A", "Key", "KEY", "K1", "É", "name", "Name"}
 
 var intPool = []int{0, 1, -1, 2, 7, 42, -100, 1 << 31, math.MaxInt, math.MinInt, 1000000,
 	255, 256, 65535, 65536, 1<<31 - 1, 1 << 32, 1 << 53, -(1 << 53), 1<<53 + 1, math.MaxInt - 1, math.MinInt + 1, 10, 100}
@@ -371,6 +371,7 @@ func genObject(d drawer, o treeOpts) at.Object {
 
 func init() {
 	// a few long strings: thresholds on string length (small-string optimisations, buffers) lie far above the pool's usual sizes
-	stringPool = append(stringPool, strings.Repeat("long-", 60), strings.Repeat("é", 40), strings.Repeat("x", 5000))
+	stringPool = append(stringPool, strings.Repeat("long-", 60), strings.Repeat("é", 40), strings.Repeat("x", 5000),
+		"caf\xe9", "\xff\xfe\x00raw", "\xc3", "a\x80b") // not valid UTF-8: still Go strings a container must hold unchanged
 	keyPool = append(keyPool, strings.Repeat("K", 300))
 }
